@@ -64,15 +64,24 @@ func blockAnswers(h *harness, blks []*block) []string {
 // parallel goroutines. Every answer must be identical: no state outside the AccountDB (package-level scratch,
 // pools, caches, singletons) may influence a frame, and concurrent EVMs on distinct states must not interfere.
 // Evidence, not proof.
-func historyProbe(r *hx.Rng, st *stats) (string, string) {
+func historyProbe(r *hx.Rng, st *stats, cfg blockCfg) (string, string) {
+	// the fork configuration is process-global node configuration: it is put in force here, once, before any
+	// goroutine is spawned; every harness of this round (sequential and parallel) shares it and none writes it
+	flags := setSchedule(cfg)
+	cfg.p013, cfg.p007, cfg.cbn = flags.p013, flags.p007, flags.cbn
 	var blks []*block
 	for i := 0; i < 16; i++ {
 		g := newGen(r.Fork(), st)
-		g.forceDev = true
+		g.forceCfg = &cfg
 		blks = append(blks, g.block())
 	}
-	setSchedule(blks[0].cfg)
-	long := newHarness()
+	setSchedule(cfg)
+	fixed := func() *harness {
+		h := newHarness()
+		h.fixedCfg, h.sharedCfg, h.flags = true, cfg, flags
+		return h
+	}
+	long := fixed()
 	// warm-up history: run and discard the blocks in reverse order first
 	rev := make([]*block, len(blks))
 	for i, b := range blks {
@@ -92,7 +101,7 @@ func historyProbe(r *hx.Rng, st *stats) (string, string) {
 			defer wg.Done()
 			sem <- struct{}{}
 			defer func() { <-sem }()
-			par[i] = blockAnswers(newHarness(), []*block{b})
+			par[i] = blockAnswers(fixed(), []*block{b})
 		}(i, b)
 	}
 	wg.Wait()
